@@ -38,18 +38,21 @@ def setup_env():
     cache = os.path.join(VERIF, ".numba", tree_hash())
     os.makedirs(cache, exist_ok=True)
     os.environ["NUMBA_CACHE_DIR"] = cache
-    # keep old caches from piling up (disk is limited): leave the two most recent
+    # keep old caches from piling up (disk is limited) without pulling a cache from under a
+    # running process: only directories untouched for three hours go, the newest six always stay
     base = os.path.join(VERIF, ".numba")
     try:
+        import shutil
+        import time
+
         ds = sorted(
             (os.path.join(base, d) for d in os.listdir(base)),
             key=lambda p: os.path.getmtime(p),
         )
-        import shutil
-
-        for p in ds[:-3]:
-            if p != cache:
+        for p in ds[:-6]:
+            if p != cache and time.time() - os.path.getmtime(p) > 3 * 3600:
                 shutil.rmtree(p, ignore_errors=True)
+        os.utime(cache, None)
     except OSError:
         pass
     if REPO not in sys.path:
